@@ -46,6 +46,7 @@ def run(ctx):
     errors(ctx, facts, send, main)
     order(ctx, facts, send, main)
     split(ctx, facts)
+    err_adapters(ctx, facts)
     ctx.assume("gateway delivery (C13) and message timing are not decided here")
 
 
@@ -239,3 +240,97 @@ def split(ctx, facts):
     if rs:
         e = str(flow.expr_of(ra, rs[0][1]["args"][2]))
         ctx.ob("SPLIT", "picker-forwarded", "arg" in e or "upvar" in e, "the caller's shard picker is passed through unchanged", site_of(ra, rs[0][0]))
+
+
+def err_adapters(ctx, facts):
+    """ERR-adapter: a stream adapter whose items are Results must not turn an inner `Some(Err(e))` into
+    `None` / `Some(Ok(_))`: on the shard receive path `None` is the normal end of a peer's stream, so a swallowed
+    transport error makes resharding return Ok with records missing."""
+    from vlib import variants as V
+    ctx.rule("ERR-adapter: for every Stream::poll_next impl (non-test) whose Item is a Result and that polls an inner stream of Results: wherever the inner result may be Some(Err), the value returned is the inner result itself or Ready(Some(Err(_)))")
+    n = 0
+    for b in sorted(facts.non_test_bodies(), key=lambda x: x.path):
+        if not b.file.startswith("ipa-core/") or not b.path.endswith("Stream>::poll_next") or b.kind != "AssocFn":
+            continue
+        rty = b.local_ty(0)
+        if not rty.startswith("std::task::Poll<std::option::Option<") or "Result<" not in rty and "Item" not in rty:
+            continue
+        inner = [(bb, t) for bb, t in b.calls() if re.search(r"(Stream::poll_next|StreamExt::poll_next_unpin|TryStream::try_poll_next)$", F.callee(t)[0] or "")]
+        if not inner:
+            continue
+        # only adapters whose inner item type is a Result too
+        ib, it = inner[0]
+        ity = b.local_ty(it["d"][0])
+        if "Result<" not in ity and "Item" not in ity:
+            continue
+        if "Result<" not in rty and "Result<" not in ity:
+            # opaque associated item types: only analyse if a Result variant is ever matched/built
+            if not any(s["r"]["k"] == "agg" and s["r"].get("adt") == "std::result::Result" for _, _, s in b.iter_assigns()) and "as Err" not in str(b.blocks):
+                continue
+        n += 1
+        ctx.count(bodies=1)
+
+        def model(vf, env, bb, t, _ib=ib):
+            if bb == _ib:
+                res = vf.new_sym(env, "inner-res", "std::result::Result", None, origin=("inner",))
+                opt = vf.new_sym(env, "inner-opt", "std::option::Option", None, origin=("inner",))
+                vf.syms["inner-opt"].payload[(1, 0)] = res
+                pol = vf.new_sym(env, "inner-poll", "std::task::Poll", None, origin=("inner",))
+                vf.syms["inner-poll"].payload[(0, 0)] = opt
+                return pol
+            return NotImplemented
+        vf = V.VariantFlow(facts, b, call_model=model)
+        try:
+            vf.run()
+        except RuntimeError as e:
+            ctx.ob("ERR-adapter", b.path, False, f"not analysable: {e}", site_of(b))
+            continue
+        bad = None
+
+        def nested_ok(vf, env, val):
+            """val is Ready(Some(Err)) possibly, or contains the inner syms themselves"""
+            if not isinstance(val, frozenset):
+                return False
+            for s in val:
+                if s in ("inner-poll",):
+                    continue
+                sym = vf.syms[s]
+                if sym.adt != "std::task::Poll":
+                    return False
+                vs = env["S"].get(s, frozenset())
+                if vs != frozenset([0]):
+                    return False   # Pending / unknown while an error is pending
+                o = sym.payload.get((0, 0))
+                if not isinstance(o, frozenset):
+                    return False
+                for os_ in o:
+                    if os_ == "inner-opt":
+                        continue
+                    osym = vf.syms[os_]
+                    if env["S"].get(os_, frozenset()) != frozenset([1]):
+                        return False
+                    r = osym.payload.get((1, 0))
+                    if not isinstance(r, frozenset):
+                        return False
+                    for rs in r:
+                        if rs == "inner-res":
+                            continue
+                        if vf.syms[rs].adt != "std::result::Result" or env["S"].get(rs, frozenset()) != frozenset([1]):
+                            return False
+            return True
+
+        for bb in sorted(vf.in_env):
+            env2 = vf.copy_env(vf.in_env[bb])
+            for idx, st in enumerate(b.stmts(bb)):
+                if "p" not in st:
+                    continue
+                val = vf.rvalue(env2, bb, idx, st["r"])
+                vf.assign(env2, bb, idx, st["p"], val)
+                if st["p"] == [0]:
+                    S = env2["S"]
+                    err_pending = S.get("inner-res") == frozenset([1]) and S.get("inner-opt", frozenset([1])) == frozenset([1]) and S.get("inner-poll", frozenset([0])) == frozenset([0])
+                    if err_pending and not nested_ok(vf, env2, val):
+                        bad = (bb, idx)
+        ctx.ob("ERR-adapter", b.path, bad is None, "an inner Some(Err(e)) is passed on as an error" if bad is None else "on the inner stream's Some(Err(_)) edge this adapter returns something else (e.g. Ready(None)): the transport error is swallowed and the consumer sees a normal end of stream — records are silently dropped",
+               site_of(b, bad[0], bad[1]) if bad else site_of(b))
+    ctx.floor("ERR-adapter", "Result-item stream adapters", n, 1)
